@@ -60,12 +60,46 @@ const b64 = s => Buffer.from(s).toString('base64')
 // data-URL fragments, blanks, quotes, non-ASCII, comment terminators
 const URL_TOKENS = ['%', '%2', '%20', '%E2%82%AC', '%E2%82', '%zz', '%%', '/', '..', '.', 'x', 'a', '.map', '.js.map', '?', '#', ':', '//', 'data:', 'application/json', ';base64,', ';charset=utf-8', ',', ' ', '\t', 'é', '😀', '\\', '"', "'", '*', '\u2028', 'a'.repeat(300), 'eyJ2ZXJzaW9uIjozfQ==', '=', '+', '-', '_']
 
+// well-formed maps of varied STRUCTURE (the chaining code walks them): several sources listed in another order than they are
+// first used, repeated entries, sourcesContent with real text / nulls / too few entries, names, tokens without source or name,
+// empty lines, a sourceRoot, a `file`, extension fields
+function richMap (rng) {
+  const S = require('./smap')
+  const nS = rng.range(1, 5)
+  const sources = Array.from({ length: nS }, (_, i) => rng.pick(['src/a', '../lib/b', 'c d', 'ñ/é', '😀']) + i + '.ts')
+  if (rng.bool(0.3)) sources.splice(rng.int(nS), 0, rng.pick(sources))
+  const names = Array.from({ length: rng.int(4) }, (_, i) => rng.pick(['n', 'value', 'ñ', '𝒳']) + i)
+  const order = rng.shuffle(sources.map((_, i) => i)) // first use in another order than listed
+  const tokens = []
+  const lines = rng.range(1, 60)
+  let k = 0
+  for (let line = 0; line < lines; line++) {
+    if (rng.bool(0.2)) continue
+    for (let c = 0, n = rng.range(1, 5); c < n; c++) {
+      const t = { genLine: line, genCol: c * rng.range(1, 9) + c }
+      if (!rng.bool(0.08)) { t.src = k < order.length ? order[k++] : rng.int(sources.length); t.srcLine = rng.int(300); t.srcCol = rng.int(80); if (names.length && rng.bool(0.3)) t.name = rng.int(names.length) }
+      tokens.push(t)
+    }
+  }
+  const seen = new Set(); const uniq = tokens.filter(t => { const key = t.genLine + ':' + t.genCol; if (seen.has(key)) return false; seen.add(key); return true })
+  const map = { version: 3, sources, names, mappings: S.encodeMappings(uniq) }
+  if (rng.bool(0.5)) map.file = 'out.js'
+  if (rng.bool(0.3)) map.sourceRoot = rng.pick(['', 'root/', '/abs'])
+  const sc = rng.int(5)
+  if (sc === 1) map.sourcesContent = sources.map(() => null)
+  else if (sc === 2) map.sourcesContent = sources.map((x, i) => `// ${x}\nexport const v${i} = ${i}\n`)
+  else if (sc === 3) map.sourcesContent = sources.map((x, i) => i % 2 ? null : 'content ' + i)
+  else if (sc === 4) map.sourcesContent = ['only the first']
+  if (rng.bool(0.2)) map.x_google_ignoreList = [0]
+  return JSON.stringify(map)
+}
+
 // a source-map reference + the reader plan that decides what reading it yields
 function mapReference (rng, file) {
-  const r = rng.int(24)
+  const r = rng.int(28)
   const dataUrl = (payload) => 'data:application/json;base64,' + payload
   const entry = rng.pick([
-    { content: VALID_MAP }, { content: INDEX_MAP }, { content: '{"version":3' }, { content: '' }, { content: 'not json' }, { content: '{"version":3,"sources":[],"names":[],"mappings":"!!!"}' },
+    { content: VALID_MAP }, { content: richMap(rng) }, { content: richMap(rng) }, { content: richMap(rng) }, { content: INDEX_MAP }, { content: '{"version":3' }, { content: '' }, { content: 'not json' }, { content: '{"version":3,"sources":[],"names":[],"mappings":"!!!"}' },
     { content: '{"version":3,"sources":["a"],"names":[],"mappings":"AAAA,' + 'gggggggggggggggggggggggg' + '"}' }, { content: '[]' }, { content: 'null' }, { content: '{"version":"x","mappings":7}' },
     { b64: Buffer.from([0xff, 0xfe, 0x00, 0x80]).toString('base64') }, { err: 'NotFound' }, { err: 'PermissionDenied' }, { err: 'IsADirectory' }, { err: 'Other' }, { err: 'Interrupted' },
     { content: VALID_MAP, fail_after: rng.int(VALID_MAP.length) }, { content: VALID_MAP, fail_after: 0 }, { size: rng.pick([100, 70000, 2000000]) }
@@ -74,6 +108,7 @@ function mapReference (rng, file) {
   let url
   const files = {}
   if (r === 0) url = dataUrl(b64(VALID_MAP))
+  else if (r >= 24) url = dataUrl(b64(richMap(rng)))
   else if (r === 1) url = dataUrl(b64(INDEX_MAP))
   else if (r === 2) url = dataUrl('!!!notbase64!!!')
   else if (r === 3) url = dataUrl(b64('{bad json'))
@@ -102,4 +137,4 @@ function mapReference (rng, file) {
   return { comment, reader: { files, parent }, kind: { r, entry: Object.keys(entry).join('+') + (entry.err ? ':' + entry.err : ''), parent, style } }
 }
 
-module.exports = { mutate, randomText, deepNesting, mapReference, FILE_NAMES, DICT, VALID_MAP, INDEX_MAP, tokens }
+module.exports = { mutate, randomText, deepNesting, mapReference, richMap, FILE_NAMES, DICT, VALID_MAP, INDEX_MAP, tokens }
